@@ -602,6 +602,15 @@ where
                         Err(TestError::Fail(reason, value)) => {
                             // re-run on the shrunk value to get the precise Fail
                             let fail = match guarded(&this.check, &value) {
+                                Err(f) if f.key == "infra" => {
+                                    // the re-execution could not be set up: report what the search saw
+                                    let r = reason.to_string();
+                                    let (k, m) = match (r.find('['), r.find(']')) {
+                                        (Some(a), Some(b)) if a < b => (r[a + 1..b].to_string(), r[b + 1..].trim().to_string()),
+                                        _ => ("unkeyed".to_string(), r.clone()),
+                                    };
+                                    Fail::new(k, format!("{m} (re-execution of the shrunk case hit a harness error: {})", f.msg))
+                                }
                                 Err(f) => f,
                                 Ok(_) => Fail::new(
                                     "flaky",
